@@ -14,7 +14,7 @@ META = dict(
     functions=["InitEccAuthBlock.pack", "InitEccAuthBlock.unpack", "AuthBlock.select_encryptor", "EccEncryptor.__init__", "EccEncryptor.encrypt", "EccDecryptor.decrypt", "PublicEccKey.create_from_raw_fmt", "PublicEccKey.to_raw_bin_fmt", "CurveFp.contains_point", "ellipticcurve.AbstractPoint._from_raw_encoding"],
     stubs=["S-cbc", "S-sha", "S-ecc"],
     assumptions=["ECDH modelled as a symmetric UF over key identities", "OpenSSL interoperability is outside the claim"],
-    bounds=dict(quick="selectors 0..3; explicit recipient, EccDecryptor as encryptor, and published-key fallback; marker byte symbolic; validation: primes {11, 13} complete + P-256 identity", thorough="same plus primes {17, 19, 23}"),
+    bounds=dict(quick="selectors 0..3; explicit recipient, EccDecryptor as encryptor, and published-key fallback; marker byte symbolic; shared-secret serialisation of the real adapter for 10 boundary classes of the shared x (leading zero bytes 0..31); validation: primes {11, 13} complete + P-256 identity", thorough="same plus primes {17, 19, 23}"),
     outside=["agreement with OpenSSL", "real P-256 scalar multiplication", "ECDH arithmetic (C17, tiny fields)"],
 )
 
@@ -27,6 +27,7 @@ def jobs(tier, seed):
     J.append(dict(name="wiring:decryptor-as-encryptor:sel1", kind="wiring", mode="decryptor", sel=1, timeout=600, cost=50))
     J.append(dict(name="wiring:wrong-selector-encryptor-ignored", kind="wiring", mode="mismatch", sel=3, timeout=600, cost=50))
     J.append(dict(name="refuse:marker", kind="marker", timeout=600, cost=30))
+    J.append(dict(name="dh-secret:fixed-width-serialisation", kind="dhbytes", timeout=900, cost=60))
     J.append(dict(name="wiring:twin", kind="wiring", mode="explicit", sel=0, twin=True, expect="violated", timeout=300))
     primes = [11, 13] if tier == "quick" else [11, 13, 17, 19, 23]
     for p in primes:
@@ -50,6 +51,33 @@ def run_job(job):
     stubs.install_uf_sha()
     UFPrivate, UFPublic = stubs.install_uf_ecc()
     from bec2format import bec2file as b2
+
+    if kind == "dhbytes":
+        import register_crypto_plugin as plug
+
+        P256 = 2 ** 256 - 2 ** 224 + 2 ** 192 + 2 ** 96 - 1
+        CLASSES = [1, 0xFF, 0x100, 2 ** 200 + 7, 2 ** 240, 2 ** 247 + 5, 2 ** 248 - 1, 2 ** 248, 2 ** 255 + 3, P256 - 1]
+
+        def h():
+            x = sym.sym_int("sharedx", 1, P256)
+            sym.assume(z3.Or([sym.expr_of(x) == c for c in CLASSES]))
+            saved = plug.ECDH.generate_sharedsecret
+            plug.ECDH.generate_sharedsecret = lambda self: x
+            try:
+                k = plug.PrivateEccKeyProxy.generate()
+                out = k.compute_dh_secret(k.public_key)
+            finally:
+                plug.ECDH.generate_sharedsecret = saved
+            ok = len(out) == 32 and int.from_bytes(out, "big") == x
+            if not ok:
+                runner.record_witness(x=x, out=out)
+            return ok
+
+        res = runner.run(h, 800, 800)
+        res["symbolic_dims"] = 1
+        if res["verdict"] == "violated":
+            res["signature"] = "C09:dh-secret-serialisation"
+        return res
 
     if kind == "marker":
         def h():
@@ -149,6 +177,17 @@ def replay(job):
         return c17.replay_validation(job)
     w = _unhex(job.get("witness") or {})
     key = w.get("key", bytes(range(16)))
+    if kind == "dhbytes":
+        x = int(w.get("x", 2 ** 240))
+        saved = plug.ECDH.generate_sharedsecret
+        plug.ECDH.generate_sharedsecret = lambda self: x
+        try:
+            k = plug.PrivateEccKeyProxy.generate()
+            out = k.compute_dh_secret(k.public_key)
+        finally:
+            plug.ECDH.generate_sharedsecret = saved
+        bad = len(out) != 32 or int.from_bytes(out, "big") != x
+        return dict(reproduced=bad, signature="C09:dh-secret-serialisation", detail="shared x = %x serialised as %d bytes %s (an independent ECIES hashes the 32-byte big-endian x)" % (x, len(out), out.hex()))
     if kind == "marker":
         d = b2.EccDecryptor(0, plug.PrivateEccKeyProxy.generate())
         try:
